@@ -157,7 +157,7 @@ Theorem C08_shuffle_wiring : forall g inv mc fixed init env st roots,
                  /\ forall j d td,
                       nth_error (ndeps (get_node g (last (tslices t) i))) j = Some d ->
                       nth_error (tdeps t) j = Some td -> dshuffle d = true ->
-                      (fixed = true \/ nresult (get_node g (dtarget d)) = None) ->
+                      (cfg_partitioned fixed = true \/ nresult (get_node g (dtarget d)) = None) ->
                       wired_shuffle g inv init (sstore st) t (get_node g (last (tslices t) i)) d td)).
 Proof. exact shuffle_wiring_top. Qed.
 Print Assumptions C08_shuffle_wiring.
